@@ -71,6 +71,11 @@ type Request struct {
 
 	keepBodyBuffer bool
 
+	// Set when a streamed request body was dropped (Body, ResetBody, SetBody...)
+	// before it had been read from the connection completely. The server must
+	// not reuse the connection then.
+	bodyStreamUnread bool
+
 	// Used by Server to indicate the request was received on a HTTPS endpoint.
 	// Client/HostClient shouldn't use this field but should depend on the uri.scheme instead.
 	isTLS bool
@@ -1296,6 +1301,7 @@ func (req *Request) Reset() {
 }
 
 func (req *Request) resetSkipHeader() {
+	req.bodyStreamUnread = false
 	req.ResetBody()
 	req.uri.Reset()
 	req.parsedURI = false
@@ -2411,6 +2417,9 @@ func (req *Request) closeBodyStream() error {
 		err = bsc.Close()
 	}
 	if rs, ok := req.bodyStream.(*requestStream); ok {
+		if rs.unread() {
+			req.bodyStreamUnread = true
+		}
 		releaseRequestStream(rs)
 	}
 	req.bodyStream = nil
